@@ -17,7 +17,7 @@ from . import common
 
 GC_FLAGS = ('DEBUG_STATS', 'DEBUG_COLLECTABLE', 'DEBUG_UNCOLLECTABLE')   # (SAVEALL/LEAK keep every object alive)
 ENDINGS = ('pass', 'failures', 'testSetUp-raises', 'testTearDown-raises', 'kbd-body', 'kbd-setUp', 'kbd-tearDown',
-           'stop-on-error', 'layer-setUp-raises', 'layer-tearDown-raises')
+           'stop-on-error', 'layer-setUp-raises', 'layer-tearDown-raises', 'leaked-stream')
 
 
 @st.composite
@@ -38,6 +38,12 @@ def cases(draw):
         ph = ending[4:]
         victim['k'] = 'pass'
         victim.setdefault('acts', {}).setdefault(ph, []).append(['raise', 'KeyboardInterrupt'])
+    elif ending == 'leaked-stream':
+        # a test that rebinds sys.stdout/sys.stderr and fails before putting them back (with --buffer: forced below)
+        victim['k'] = draw(st.sampled_from(['fail', 'error', 'pass', 'fail_teardown']))
+        victim['exc'] = 'ValueError'
+        victim.setdefault('acts', {}).setdefault(draw(st.sampled_from(['setUp', 'body'])), []).append(
+            ['swap', 'leak', draw(st.sampled_from(['o', 'e', 'oe']))])
     elif ending in ('layer-setUp-raises', 'layer-tearDown-raises'):
         L = spec['layers'][draw(st.integers(0, len(spec['layers']) - 1))]
         L.setdefault('faults', {})[ending.split('-')[1]] = 'ValueError'
@@ -50,7 +56,7 @@ def cases(draw):
         o['G'] = draw(st.lists(st.sampled_from(GC_FLAGS), min_size=1, max_size=3, unique=True))
     o['coverage'] = draw(st.sampled_from([False, False, True]))
     o['profile'] = draw(st.sampled_from([False, False, True]))
-    o['buffer'] = draw(st.booleans())
+    o['buffer'] = draw(st.booleans()) or ending == 'leaked-stream'
     o['post_mortem'] = draw(st.sampled_from([False, False, False, True]))
     o['warnings'] = draw(st.sampled_from([None, 'default', 'error', 'ignore', 'always']))
     o['stop'] = ending == 'stop-on-error' or draw(st.sampled_from([False, False, True]))
